@@ -63,9 +63,7 @@ class EncoderSelector:
         if not limit_time:
             self.encoding_timeout, self.n_mat_max_eager, self.limit_dist_corr_time = enc_timeout, n_mme, limit_dc_time
 
-        os.makedirs(os.path.dirname(cache_path), exist_ok=True)
-        with open(cache_path, 'wb') as fp:
-            pickle.dump(assignment_manager, fp)
+        AggregateAssignmentMatrixGenerator._write_to_cache(cache_path, assignment_manager)  # Atomic write
         return assignment_manager
 
     def initialize_numba(self):
